@@ -319,6 +319,206 @@ func genURL(e *emitter, rng *rand.Rand, thorough bool) {
 		e.emit(randBytes(rng, rng.Intn(12)))
 	}
 }
-func genEmail(e *emitter, rng *rand.Rand, thorough bool) {}
-func genAscii(e *emitter, rng *rand.Rand, thorough bool) {}
-func genUTF8(e *emitter, rng *rand.Rand, thorough bool)  {}
+func rep(s string, n int) string {
+	if n <= 0 {
+		return ""
+	}
+	return strings.Repeat(s, (n+len(s)-1)/len(s))[:n]
+}
+
+func genEmail(e *emitter, rng *rand.Rand, thorough bool) {
+	// exhaustive short strings over one representative per character class
+	alpha := []string{"a", "1", ".", "-", "_", "@", "+", " ", "\u0161", "\xff"}
+	maxn := 6
+	if thorough {
+		maxn = 7
+	}
+	var rec func(prefix string, n int)
+	rec = func(prefix string, n int) {
+		e.emit(prefix)
+		if n == 0 {
+			return
+		}
+		for _, a := range alpha {
+			rec(prefix+a, n-1)
+		}
+	}
+	rec("", maxn)
+	// members and every single-byte mutation / insertion / deletion
+	members := []string{"a@b.c", "user.name+tag@sub.example.com", "x_y-z@a-b.co", "A1!#$%&'*+-/=?^_`{|}~z@EXAMPLE.ORG", "a.b.c@1.2.3", "u@xn--80ak6aa92e.com"}
+	mut := []byte{'a', 'Z', '0', '.', '-', '_', '@', '+', ' ', '"', '(', ',', ':', ';', '<', '>', '[', '\\', ']', 0, 0x7f, 0x80, 0xc5, 0xa1, 0xff, '!', '~', '{', '`'}
+	for _, m := range members {
+		e.emit(m)
+		for pos := 0; pos <= len(m); pos++ {
+			for _, v := range mut {
+				e.emit(m[:pos] + string([]byte{v}) + m[pos:])
+				if pos < len(m) {
+					b := []byte(m)
+					b[pos] = v
+					e.emit(string(b))
+				}
+			}
+			if thorough && pos < len(m) {
+				for v := 0; v < 256; v++ {
+					b := []byte(m)
+					b[pos] = byte(v)
+					e.emit(string(b))
+				}
+			}
+			if pos < len(m) {
+				e.emit(m[:pos] + m[pos+1:])
+			}
+			// multi-byte runes whose low byte is an allowed ASCII character
+			for _, r := range []string{"\u0161", "\u014d", "\u0131", "\uff41", "\u212a", "\u00e9", "\U0001f600", "\u012e", "\u0140"} {
+				e.emit(m[:pos] + r + m[pos:])
+			}
+		}
+	}
+	// length limits: local 63/64/65, label 62/63/64, domain 252/253/254, total 253/254/255, minimum 4/5/6
+	for _, ll := range []int{1, 2, 63, 64, 65, 66} {
+		for _, lab := range []int{1, 2, 62, 63, 64} {
+			for _, nl := range []int{1, 2, 3, 4, 5} {
+				var labels []string
+				for i := 0; i < nl; i++ {
+					labels = append(labels, rep("abcdefghij", lab))
+				}
+				e.emit(rep("user", ll) + "@" + strings.Join(labels, "."))
+			}
+		}
+	}
+	for dl := 248; dl <= 258; dl++ {
+		for _, ll := range []int{1, 2, 3} {
+			// domain of exactly dl bytes made of labels of <= 63
+			var d string
+			for len(d) < dl {
+				rem := dl - len(d)
+				n := 63
+				if rem < 64 {
+					n = rem
+				} else if rem == 64 {
+					n = 62
+				}
+				d += rep("abcdefghijklmnopqrstuvwxyz0123456789", n)
+				if len(d) < dl {
+					d += "."
+				}
+			}
+			e.emit(rep("u", ll) + "@" + d)
+			e.emit(rep("u", ll) + "@" + strings.ToUpper(d))
+		}
+	}
+	for _, s := range []string{"a@b.", "a@.b", "a@b", "@b.c", "a@", "a@b..c", "a@-b.c", "a@b-.c", "a@b.-c", "a@b.c-", ".a@b.c", "a.@b.c", "a..b@b.c", "a@b@c.d", "a@@b.c", "ab.c", "a@b.c\n", "a@b.c ", " a@b.c", "a@b_c.d", "a@b.c.d.e.f.g", "a@1.2", "aa@b", "a@bb", "a@b.cc"} {
+		e.emit(s)
+	}
+	n := 3000
+	if thorough {
+		n = 200000
+	}
+	syms := "ab1.-_@+ !~"
+	for i := 0; i < n; i++ {
+		k := 3 + rng.Intn(12)
+		b := make([]byte, k)
+		for j := range b {
+			b[j] = syms[rng.Intn(len(syms))]
+		}
+		e.emit(string(b))
+		// mostly-valid: local@label.label with occasional noise
+		l := rep("ab.c1_d", 1+rng.Intn(8))
+		d := rep("ex-ample", 1+rng.Intn(9)) + "." + rep("co-m", 1+rng.Intn(5))
+		s := l + "@" + d
+		if rng.Intn(3) == 0 {
+			bb := []byte(s)
+			bb[rng.Intn(len(bb))] = mut[rng.Intn(len(mut))]
+			s = string(bb)
+		}
+		e.emit(s)
+		e.emit(randBytes(rng, rng.Intn(10)))
+	}
+}
+
+func genAscii(e *emitter, rng *rand.Rand, thorough bool) {
+	for v := 0; v < 256; v++ {
+		e.emit(string([]byte{byte(v)}))
+		e.emit("a" + string([]byte{byte(v)}))
+		e.emit(string([]byte{byte(v)}) + "7")
+		e.emit("Zz" + string([]byte{byte(v)}) + "09")
+	}
+	for _, s := range []string{"", "abc", "ABC", "123", "0", "a1", "1a", " ", "-1", "+1", "1.0", "1e3", "\u0661\u0662", "\uff11", "\u00e9", "ab\xc3", "\xc3\xa9", "12\xff", "\xc1", "\xda", "\xe1", "\xfa", "\u0130", "abc\x00"} {
+		e.emit(s)
+	}
+	n := 2000
+	if thorough {
+		n = 100000
+	}
+	for i := 0; i < n; i++ {
+		k := rng.Intn(10)
+		b := make([]byte, k)
+		for j := range b {
+			switch rng.Intn(6) {
+			case 0:
+				b[j] = byte(rng.Intn(256))
+			case 1, 2:
+				b[j] = byte('0' + rng.Intn(10))
+			default:
+				b[j] = "abcxyzABCXYZ"[rng.Intn(12)]
+			}
+		}
+		e.emit(string(b))
+	}
+}
+
+func genUTF8(e *emitter, rng *rand.Rand, thorough bool) {
+	// all 1- and 2-byte strings
+	for a := 0; a < 256; a++ {
+		e.emit(string([]byte{byte(a)}))
+		for b := 0; b < 256; b++ {
+			e.emit(string([]byte{byte(a), byte(b)}))
+		}
+	}
+	// 3-byte strings with a lead byte >= 0xC0 (all in thorough, sampled in quick)
+	for a := 0xC0; a < 256; a++ {
+		for b := 0; b < 256; b++ {
+			for c := 0; c < 256; c++ {
+				if !thorough && rng.Intn(64) != 0 {
+					continue
+				}
+				e.emit(string([]byte{byte(a), byte(b), byte(c)}))
+			}
+		}
+	}
+	// structured 4-byte sequences: every lead F0..F7 x boundary second bytes x boundary continuation bytes
+	bnd := []byte{0x00, 0x7f, 0x80, 0x8f, 0x90, 0x9f, 0xa0, 0xbf, 0xc0, 0xff}
+	for a := 0xEC; a < 0xF8; a++ {
+		for _, b := range bnd {
+			for _, c := range bnd {
+				for _, d := range bnd {
+					e.emit(string([]byte{byte(a), b, c, d}))
+				}
+			}
+		}
+	}
+	// all strings of <= 6 symbols over {1-,2-,3-,4-byte rune, lone continuation, 0xFF, truncated lead}
+	syms := []string{"a", "\u00e9", "\u20ac", "\U0001f600", "\x80", "\xff", "\xe2\x82", "\xf0\x9f"}
+	maxn := 5
+	if thorough {
+		maxn = 6
+	}
+	var rec func(prefix string, n int)
+	rec = func(prefix string, n int) {
+		e.emit(prefix)
+		if n == 0 {
+			return
+		}
+		for _, a := range syms {
+			rec(prefix+a, n-1)
+		}
+	}
+	rec("", maxn)
+	n := 2000
+	if thorough {
+		n = 100000
+	}
+	for i := 0; i < n; i++ {
+		e.emit(randBytes(rng, rng.Intn(40)))
+	}
+}
